@@ -17,9 +17,12 @@
 
 use crate::{
 	trait_bounds,
-	utils::{codec_crate_path, custom_mel_trait_bound, has_dumb_trait_bound, should_skip},
+	utils::{
+		codec_crate_path, custom_mel_trait_bound, get_compact_type, get_encoded_as_type,
+		has_dumb_trait_bound, should_skip,
+	},
 };
-use quote::{quote, quote_spanned};
+use quote::{quote, quote_spanned, ToTokens};
 use syn::{parse_quote, spanned::Spanned, Data, DeriveInput, Field, Fields};
 
 /// impl for `#[derive(MaxEncodedLen)]`
@@ -44,7 +47,7 @@ pub fn derive_max_encoded_len(input: proc_macro::TokenStream) -> proc_macro::Tok
 		None,
 		has_dumb_trait_bound(&input.attrs),
 		&crate_path,
-		false,
+		true,
 	) {
 		return e.to_compile_error().into();
 	}
@@ -85,9 +88,16 @@ fn fields_length_expr(fields: &Fields, crate_path: &syn::Path) -> proc_macro2::T
 	// `MaxEncodedLen`, the compiler's error message will underline which field
 	// caused the issue.
 	let expansion = fields_iter.map(|field| {
-		let ty = &field.ty;
+		// The bound must be the one of the type the field is actually encoded as.
+		let ty = if let Some(compact) = get_compact_type(field, crate_path) {
+			compact
+		} else if let Some(encoded_as) = get_encoded_as_type(field) {
+			encoded_as
+		} else {
+			field.ty.to_token_stream()
+		};
 		quote_spanned! {
-			ty.span() => .saturating_add(<#ty as #crate_path::MaxEncodedLen>::max_encoded_len())
+			field.ty.span() => .saturating_add(<#ty as #crate_path::MaxEncodedLen>::max_encoded_len())
 		}
 	});
 	quote! {
